@@ -245,6 +245,13 @@ func ruleC02_1(c *Ctx) {
 			continue
 		}
 		allowed := true
+		// dropping the request bytes (nil / empty literal) is only legitimate where a fragment object is set up or reset
+		if cst, isC := strip(w.Val).(*ssa.Const); isC && cst.Value == nil {
+			if _, fresh := strip(w.Base).(*ssa.Alloc); !fresh && !strings.Contains(fnKey(encl), "fragPool") {
+				c.bad(name+" (cleared)", c.at(w.Instr), "Frag.Req is set to nil outside the fragment pool: the bytes are still needed after the first send - a -MOVED/-ASK redirect re-queues the same fragment on another node, which would then be sent an empty request while the fragment is counted as awaiting a reply")
+				continue
+			}
+		}
 		for k := range kinds {
 			switch {
 			case k == "self", k == "const", k == "fresh", k == "itoa", k == "readbuf":
@@ -328,7 +335,7 @@ func ruleC02_2(c *Ctx) {
 	okS := false
 	detail := fmt.Sprintf("%d call sites", len(t2s))
 	if len(t2s) == 1 && homeFn(t2s[0].Fn) == dec && t2s[0].Call != nil {
-		arg := strip(t2s[0].Call.Args[0])
+		arg := throughTuple(t2s[0].Call.Args[0])
 		if ex, ok := arg.(*ssa.Extract); ok && ex.Index == 0 {
 			if call, ok := p.isCallTo(ex.Tuple, parseLine); ok {
 				// it must be the first parseLine of the request: no other parseLine call (in Decode or its callees) can precede it
